@@ -1528,6 +1528,7 @@ func sendPex(peer *Peer) {
 		err := write(peer,
 			protocol.ExtendedPex{uint8(peer.pexExt), tosend, todel})
 		if err != nil {
+			peer.pexState.sent = peer.pexState.sent[:len(peer.pexState.sent)-len(tosend)]
 			peer.pexState.pending =
 				append(tosend, peer.pexState.pending...)
 			peer.pexState.pendingDel =
